@@ -2,8 +2,11 @@
   C15 — XPath results do not depend on evaluation history, caching or threads.
 
   Property theorems only.  Model: AHP/Model/Cache.lean (`_cache.py`, `XPathExpression.__init__`, the
-  per-thread quantum machine, the lock-level small-step programs).  Helper lemmas and the cache-free
-  specification `specStep`/`specRun`: AHP/Lemmas/Cache.lean, AHP/Lemmas/CacheHist.lean.
+  per-thread quantum machine, the lock-level machine with one step per statement of a critical section, whole
+  threads on it), AHP/Model/CacheHeap.lean (the sharing of compiled objects).  Helper lemmas and the cache-free
+  specification `specStep`/`specRun`: AHP/Lemmas/Cache.lean, AHP/Lemmas/CacheHist.lean; lock level:
+  AHP/Lemmas/CacheLock.lean (uninterrupted runs, what a section computes), CacheLockSys.lean (`LockBits`,
+  `LockInv`), CacheLockThreads.lean (`Sim`: lock level ⇒ quantum level); heap: AHP/Lemmas/CacheHeap.lean.
 
   Parameters everywhere: `compile : E → Option V` (the XPath compiler; `none` = raises), `key : E → K`
   (sha1 of the text — injective by assumption), `eval : V → T → R` (evaluation; `R` includes run-time
